@@ -68,7 +68,9 @@ theorem inv_step {s s' : St} {tr : Tr} (h : Inv s) (hs : step? s tr = some s') :
   | dec t =>
     simp only [step?] at hs; split at hs
     · split at hs
-      · cases hs; exact inv_dec h ‹_› ‹_› ‹_›
+      · split at hs
+        · cases hs; exact inv_dec h ‹_› ‹_› ‹_› ‹_›
+        · cases hs
       · cases hs
     · cases hs
   | addCall t q =>
@@ -147,7 +149,7 @@ theorem inv_step {s s' : St} {tr : Tr} (h : Inv s) (hs : step? s tr = some s') :
     · split at hs
       · rename_i m _ _ tp hbt hsu htp hg
         split at hs
-        · rename_i hf; cases hs; exact inv_nestEnter h hbt hsu htp ⟨hg.1, hf.2.2.1, hf.2.2.2⟩
+        · rename_i hf; cases hs; exact inv_nestEnter h hbt htp ⟨hg.1, hf.2.2.1, hf.2.2.2⟩
         · cases hs
           exact inv_tpUpdate (tp := tp) h htp rfl rfl ⟨rfl, fun e => e⟩
       · cases hs
